@@ -129,6 +129,14 @@ CLAIMED.update({
    design='5/C05'),
 })
 
+CLAIMED.update({
+ 'C17': dict(
+   technique='Lean 4 proof: decision logic of both defence layers over every definition, instantiation and type (attribute check, ZeroCopy bound per field, the IS_ZERO_COPY constant by mutual structural induction: true implies plain old data), the guard of serialize_zero; tied by comparing the real constants of every generated type with the model and by compiling / running probe programs',
+   text='Kernel-checked: no_reprC_rejected, both_attrs_rejected, non_zero_field_rejected (a definition declared zero-copy with a field, in any variant, whose instantiated type is not ZeroCopy is refused at compile time; heap_types_not_zero lists vector, string, boxed slice, option, bound, control-flow, slice reference, deep structure), Ty.zcConst_plain (IS_ZERO_COPY = true implies that no vector, string, box, option or reference occurs at any depth), zcConst_false_of_field / zcConst_false_no_reprC / wrappers_propagate (a false constant is not hidden by structures, arrays, tuples, ranges), guard_sound / guard_panics (serialize_zero and serialize_slice_zero write only plain old data, and panic before padding, length and data otherwise), wrongly_declared_never_written (for every definition declared zero-copy: refused at compile time, or panic with nothing of the value written, or a C representation, only ZeroCopy fields and a pointer-free image). The run compares IS_ZERO_COPY and ZERO_COPY_MISMATCH of every generated type with the model, builds 15 wrongly declared definitions (each must be rejected for the ZeroCopy bound or by the macro), runs a hand-written lying type through 18 containers (each attempt must panic with no byte of the value written) and a valid control.',
+   note='rustc is the implementation of the compile-time layer: the probes cover one definition per replacement listed by the property, not all programs (partial); hand-written impls that lie about IS_ZERO_COPY itself are outside the property; the fix e98eccd (tuples and ranges propagate the constant) is what makes wrappers_propagate true of the code.',
+   design='5/C17'),
+})
+
 NOT_YET = {
 }
 
